@@ -14,12 +14,12 @@ TIE_THEOREMS = ["Tie.Frame.%s_tie" % n for n in
                 ("init", "getSlice", "getBit", "setSlice", "setBit", "containsTrue", "containsFalse", "add", "eq", "ne")]
 THEOREMS = ["new_spec", "new_inv", "apply_refines", "history_refines", "value_in_range",
             "eq_iff", "ne_eq_not_eq", "pack_spec", "packLen_spec", "packLen_roundtrip",
-            "pack_reconstructs"]
+            "pack_reconstructs", "render_spec"]
 TRUSTED = ["hand-written model Model/Frame.lean of dali/frame.py (tied by this correspondence: "
            "exhaustive for widths <= 5 (quick) / <= 8 (thorough), sampled histories up to width 256)",
            "reference Spec/Bits.lean (list of bits) is the meaning of 'bit vector' used by the theorems"]
 ASSUMPTIONS = ["operand frames of add/==/!= are themselves reachable frames (Inv)"]
-PARTIAL = ("__str__ and the ForwardFrame/BackwardFrame subclasses are modelled and tied but carry no theorem; "
+PARTIAL = ("the ForwardFrame/BackwardFrame subclasses are modelled and tied but carry no theorem of their own (str: render_spec); "
            "as_byte_sequence is list(pack) by definition in both model and code")
 
 def fbits(f):
